@@ -246,6 +246,19 @@ func c07Collect(c *Ctx, p *Prog, m *Model) {
 			}
 			want = append(want, "own")
 		}
+		if !a["owner!=nil"] {
+			// visiting a nil owner is a no-op (the walk returns at once on a nil logger: the e==nil rows): optional
+			dropAnc := func(in []string) []string {
+				var o []string
+				for _, x := range in {
+					if x != "ancestors" {
+						o = append(o, x)
+					}
+				}
+				return o
+			}
+			ev, want = dropAnc(ev), dropAnc(want)
+		}
 		if a["empty"] {
 			// appending an empty own list is a no-op: optional
 			strip := func(in []string) []string {
@@ -699,8 +712,36 @@ func c07Sort(c *Ctx, p *Prog, m *Model) {
 			if ph, isPhi := idx.(*ssa.Phi); isPhi && low == 0 && startsAt(ph, 0) && j == nil {
 				j = ph
 				other := cmpCall.Common().Args[1-k]
-				if l2, i2, ok2 := elemOf(other); ok2 && ((l2 == 0 && startsAt(i2, 1)) || (l2 >= 1 && isRangeIdx(i2))) {
-					E = other
+				if l2, i2, ok2 := elemOf(other); ok2 {
+					// the element compared is a LATER one: its absolute index starts at 1 or above
+					var minStart func(v ssa.Value, d int) (int64, bool)
+					minStart = func(v ssa.Value, d int) (int64, bool) {
+						if d > 4 {
+							return 0, false
+						}
+						if isRangeIdx(v) {
+							return 0, true
+						}
+						if ph, isPhi := v.(*ssa.Phi); isPhi {
+							for c0 := int64(0); c0 <= 2; c0++ {
+								if startsAt(ph, c0) {
+									return c0, true
+								}
+							}
+							return 0, false
+						}
+						if bo, isB := v.(*ssa.BinOp); isB && bo.Op == token.ADD {
+							if k, isC := constInt(bo.Y); isC && k >= 0 {
+								if m0, ok := minStart(bo.X, d+1); ok {
+									return m0 + k, true
+								}
+							}
+						}
+						return 0, false
+					}
+					if m0, ok := minStart(i2, 0); ok && l2+m0 >= 1 {
+						E = other
+					}
 				}
 			}
 		}
